@@ -113,35 +113,37 @@ func fe(scenario, targeted string, methods ...string) focusEntry {
 
 // focusTable maps Type.field to the methods reading or writing that field.
 var focusTable = map[string]focusEntry{
-	"Batch.err":              fe("batch", "batcherr", "Batch.Err", "Batch.Read", "Batch.ReadMessage", "Batch.Close"),
-	"Batch.offset":           fe("batch", "", "Batch.Offset", "Batch.Read", "Batch.ReadMessage", "Batch.Close"),
-	"Batch.conn":             fe("batch", "", "Batch.ReadMessage", "Batch.Close"),
-	"Batch.msgs":             fe("batch", "", "Batch.Read", "Batch.ReadMessage", "Batch.Close"),
-	"Batch.lastOffset":       fe("batch", "", "Batch.Read", "Batch.ReadMessage"),
-	"Conn.offset":            fe("batch", "connoffset", "Conn.Offset", "Conn.Seek", "Batch.ReadMessage", "Batch.Close"),
-	"Conn.rdeadline":         fe("batch", "", "Conn.SetDeadline", "Conn.SetReadDeadline", "Batch.Read", "Batch.ReadMessage", "Batch.Close"),
-	"Conn.wdeadline":         fe("batch", "", "Conn.SetDeadline", "Conn.SetWriteDeadline"),
-	"Conn.requiredAcks":      fe("batch", "", "Conn.SetRequiredAcks"),
-	"RoundRobin.counter":     fe("balancers", "", "RoundRobin.Balance", "Hash.Balance", "ReferenceHash.Balance"),
-	"RoundRobin.offset":      fe("balancers", "", "RoundRobin.Balance"),
-	"LeastBytes.counters":    fe("balancers", "", "LeastBytes.Balance"),
-	"Hash.Hasher":            fe("balancers", "", "Hash.Balance"),
-	"ReferenceHash.Hasher":   fe("balancers", "", "ReferenceHash.Balance"),
-	"Writer.writers":         fe("writer", "", "Writer.WriteMessages", "Writer.Close"),
-	"Writer.closed":          fe("writer", "", "Writer.WriteMessages", "Writer.Close"),
-	"Writer.stats":           fe("writer", "", "Writer.Stats", "Writer.WriteMessages"),
-	"Writer.transport":       fe("writer", "", "Writer.WriteMessages", "Writer.Close"),
-	"Writer.group":           fe("writer", "", "Writer.WriteMessages", "Writer.Close"),
-	"Reader.cancel":          fe("reader", "readergroup", "Reader.SetOffset", "Reader.SetOffsetAt", "Reader.Close", "Reader.ReadMessage", "Reader.FetchMessage"),
-	"Reader.offset":          fe("reader", "", "Reader.Offset", "Reader.SetOffset", "Reader.ReadMessage", "Reader.FetchMessage"),
-	"Reader.lag":             fe("reader", "", "Reader.Lag", "Reader.ReadMessage", "Reader.FetchMessage"),
-	"Reader.closed":          fe("reader", "", "Reader.Close", "Reader.ReadMessage", "Reader.SetOffset"),
-	"Reader.version":         fe("reader", "readerversion", "Reader.SetOffset", "Reader.ReadMessage", "Reader.FetchMessage"),
-	"Reader.stats":           fe("reader", "", "Reader.Stats", "Reader.ReadMessage", "Reader.FetchMessage"),
-	"Transport.pools":        fe("transport", "", "Transport.CloseIdleConnections", "Transport.RoundTrip", "Client.Metadata"),
-	"gzip.Codec.writerPool":  fe("codecs", "", "gzip.Codec.NewWriter"),
-	"zstd.Codec.encoderPool": fe("codecs", "", "zstd.Codec.NewWriter"),
-	"pageBuffer.pages":       fe("pagebuf", "", "protocol.WriteRequest", "protocol.ReadRequest", "protocol.Bytes.Read", "protocol.Bytes.Close"),
+	"Batch.err":                  fe("batch", "batcherr", "Batch.Err", "Batch.Read", "Batch.ReadMessage", "Batch.Close"),
+	"Batch.offset":               fe("batch", "", "Batch.Offset", "Batch.Read", "Batch.ReadMessage", "Batch.Close"),
+	"Batch.conn":                 fe("batch", "", "Batch.ReadMessage", "Batch.Close"),
+	"Batch.msgs":                 fe("batch", "", "Batch.Read", "Batch.ReadMessage", "Batch.Close"),
+	"Batch.lastOffset":           fe("batch", "", "Batch.Read", "Batch.ReadMessage"),
+	"Conn.offset":                fe("batch", "connoffset", "Conn.Offset", "Conn.Seek", "Batch.ReadMessage", "Batch.Close"),
+	"Conn.rdeadline":             fe("batch", "", "Conn.SetDeadline", "Conn.SetReadDeadline", "Batch.Read", "Batch.ReadMessage", "Batch.Close"),
+	"Conn.wdeadline":             fe("batch", "", "Conn.SetDeadline", "Conn.SetWriteDeadline"),
+	"Conn.requiredAcks":          fe("batch", "", "Conn.SetRequiredAcks"),
+	"RoundRobin.counter":         fe("balancers", "", "RoundRobin.Balance", "Hash.Balance", "ReferenceHash.Balance"),
+	"RoundRobin.offset":          fe("balancers", "", "RoundRobin.Balance"),
+	"LeastBytes.counters":        fe("balancers", "", "LeastBytes.Balance"),
+	"Hash.Hasher":                fe("balancers", "", "Hash.Balance"),
+	"ReferenceHash.Hasher":       fe("balancers", "", "ReferenceHash.Balance"),
+	"$kafka.partitionsCache":     fe("writer", "writergrow", "Writer.WriteMessages"),
+	"snappy.writer.xerialWriter": fe("codecs", "recordset", "snappy.Codec.NewWriter"),
+	"Writer.writers":             fe("writer", "", "Writer.WriteMessages", "Writer.Close"),
+	"Writer.closed":              fe("writer", "", "Writer.WriteMessages", "Writer.Close"),
+	"Writer.stats":               fe("writer", "", "Writer.Stats", "Writer.WriteMessages"),
+	"Writer.transport":           fe("writer", "", "Writer.WriteMessages", "Writer.Close"),
+	"Writer.group":               fe("writer", "", "Writer.WriteMessages", "Writer.Close"),
+	"Reader.cancel":              fe("reader", "readergroup", "Reader.SetOffset", "Reader.SetOffsetAt", "Reader.Close", "Reader.ReadMessage", "Reader.FetchMessage"),
+	"Reader.offset":              fe("reader", "", "Reader.Offset", "Reader.SetOffset", "Reader.ReadMessage", "Reader.FetchMessage"),
+	"Reader.lag":                 fe("reader", "", "Reader.Lag", "Reader.ReadMessage", "Reader.FetchMessage"),
+	"Reader.closed":              fe("reader", "", "Reader.Close", "Reader.ReadMessage", "Reader.SetOffset"),
+	"Reader.version":             fe("reader", "readerversion", "Reader.SetOffset", "Reader.ReadMessage", "Reader.FetchMessage"),
+	"Reader.stats":               fe("reader", "", "Reader.Stats", "Reader.ReadMessage", "Reader.FetchMessage"),
+	"Transport.pools":            fe("transport", "", "Transport.CloseIdleConnections", "Transport.RoundTrip", "Client.Metadata"),
+	"gzip.Codec.writerPool":      fe("codecs", "", "gzip.Codec.NewWriter"),
+	"zstd.Codec.encoderPool":     fe("codecs", "", "zstd.Codec.NewWriter"),
+	"pageBuffer.pages":           fe("pagebuf", "", "protocol.WriteRequest", "protocol.ReadRequest", "protocol.Bytes.Read", "protocol.Bytes.Close"),
 }
 
 // focus is the set of methods to weight up (empty: no bias).
@@ -255,7 +257,7 @@ func main() {
 
 	// the files register in alphabetical order: list in priority order
 	order := map[string]int{}
-	for i, n := range []string{"balancers", "codecs", "pagebuf", "batcherr", "connoffset", "readerversion", "readergroup", "batch", "conn", "writer", "reader", "transport"} {
+	for i, n := range []string{"balancers", "codecs", "pagebuf", "batcherr", "connoffset", "readerversion", "readergroup", "writergrow", "recordset", "batch", "conn", "writer", "reader", "transport"} {
 		order[n] = i
 	}
 	sort.SliceStable(scenarios, func(i, j int) bool { return order[scenarios[i].name] < order[scenarios[j].name] })
